@@ -268,7 +268,9 @@ def r3_domain(P, rep, ctx):
                       message=f"issubclass is evaluated on {norm(a)}, which is not normalised to the partial class: a complete and a partial instance of one schema count as unrelated (no recursive merge)")
     # the nested merge is invoked on the normalised values
     mcalls = [c for c in local_calls(fi.node) if call_attr(c) == "merge_with"]
-    ok = bool(mcalls) and all(norm(call_recv(c)) == "v_old_p" and c.args and norm(c.args[0]) == "v_new_p" for c in mcalls)
+    f3 = F(ctx, fi)
+    vo_, vn_ = fi.params[1], fi.params[2]
+    ok = bool(mcalls) and all(f3.x(call_recv(c)) == f"self._to_partial_value({vo_})" and c.args and f3.x(c.args[0]) == f"self._to_partial_value({vn_})" for c in mcalls)
     rep.check(ok, "C14.R3", fi.qual, "nested models are merged recursively as old.merge_with(new)", fi.loc(), construct="recursive merge call", message="the recursive merge of nested models is not `v_old_p.merge_with(v_new_p, ...)`")
     for c in mcalls:
         ao = kwarg(c, "allow_overwrite")
